@@ -494,7 +494,7 @@ func nsPkgRule(w *World, r *Result, fnName string) int {
 			return true
 		}
 		n++
-		cons := es(call)
+		cons := normLocals(info, call) // locals by type: a rename keeps the construct (and the known-finding key)
 		pos := w.Pos(call.Pos())
 		if readsPkg {
 			r.ok("NS-PKG", fi.Name, cons, pos, "the printed name also depends on the declaring package", true)
